@@ -34,19 +34,29 @@ func vpOpenCSRF(secret, value string) (*vpCSRFPlain, error) {
 	if err != nil {
 		return nil, err
 	}
-	c, err := encryption.NewCFBCipher(encryption.SecretBytes(secret))
-	if err != nil {
-		return nil, err
+	// the harness reads the cookie the way the proxy wrote it; both ciphers the code base has are tried (the authenticated one first:
+	// a stream cipher "opens" anything), so that a change of the
+	// cookie's encryption does not blind the harness (if neither opens it, the ghost knowledge is gone: no verdict, never a violation)
+	var lastErr error
+	for _, mk := range []func([]byte) (encryption.Cipher, error){encryption.NewGCMCipher, encryption.NewCFBCipher} {
+		c, err := mk(encryption.SecretBytes(secret))
+		if err != nil {
+			lastErr = err
+			continue
+		}
+		dec, err := c.Decrypt(raw)
+		if err != nil {
+			lastErr = err
+			continue
+		}
+		out := &vpCSRFPlain{}
+		if err := msgpack.Unmarshal(dec, out); err != nil {
+			lastErr = err
+			continue
+		}
+		return out, nil
 	}
-	dec, err := c.Decrypt(raw)
-	if err != nil {
-		return nil, err
-	}
-	out := &vpCSRFPlain{}
-	if err := msgpack.Unmarshal(dec, out); err != nil {
-		return nil, err
-	}
-	return out, nil
+	return nil, lastErr
 }
 
 // vpMutateSigned applies a labelled mutation to a signed cookie value "b64|ts|sig" issued under name.
@@ -195,6 +205,7 @@ func init() {
 				jars := map[string]*vpJar{"b1": vpNewJar(), "b2": vpNewJar()}
 				recs := []*vpLoginRec{nil} // 1-based
 				var steps []map[string]interface{}
+				ghostLost := ""
 				var conc []interface{}
 				for _, st := range c.Steps {
 					obs := map[string]interface{}{}
@@ -223,6 +234,8 @@ func init() {
 						}
 						if pl, err := vpOpenCSRF(w.secret, rec.ckValue); err == nil {
 							rec.plain = pl
+						} else if rec.ckValue != "" {
+							ghostLost = "cannot open the CSRF cookie the proxy set (" + err.Error() + "): nonce / verifier unknown to the harness"
 						}
 						ver := "none"
 						if rec.plain != nil && (rec.plain.Verifier != "" || rec.challenge != "") {
@@ -379,6 +392,10 @@ func init() {
 					if obs["diverged"] == true {
 						break
 					}
+				}
+				if ghostLost != "" {
+					env.emit(vpOut{ID: c.ID, Err: ghostLost})
+					continue
 				}
 				env.emit(vpOut{ID: c.ID, Steps: steps, Conc: conc})
 			}
